@@ -17,7 +17,7 @@ ASSUMPTIONS = ['policy order taken from the README / docstrings: fallback aliase
 
 FALLBACKS = {'none': None, 'list-hit': ['ib'], 'list-miss': ['zz'], 'call-hit': {'call': ['zz', 'ib']}, 'call-miss': {'call': ['zz']}}
 MISSING = {'unset': None, 'truthy': 'u5', 'zero': 'v0', 'empty-str': 've', 'empty-list': 'vel', 'empty-dict': 'ved', 'false': 'vfalse',
-           'call': {'call': 'u6'}, 'call-zero': {'call': 'v0'}}
+           'call': {'call': 'u6'}, 'call-zero': {'call': 'v0'}, 'call-none': {'call': 'vn'}}
 P.VALS.setdefault('vfalse', lambda: False)
 OUTCFG = [(True, None), (True, 'u5'), (False, None), (False, 'u5'), (False, 'v0')]
 RECORDED = {
@@ -25,6 +25,8 @@ RECORDED = {
     'ia+ib': [{'fn': 'in_a', 'a': ['x1'], 'ret': 'u1'}, {'fn': 'in_b', 'a': ['x1'], 'ret': 'u2'}],
     'ib+oa': [{'fn': 'in_b', 'a': ['x1'], 'ret': 'u2'}, {'fn': 'out_a', 'a': ['x1'], 'ret': 'u3'}],
     'iaE+oaE': [{'fn': 'in_a', 'a': ['x1'], 'exc': 'E1'}, {'fn': 'out_a', 'a': ['x1'], 'exc': 'E2'}],
+    'ib+oa2+oh2': [{'fn': 'in_b', 'a': ['x1'], 'ret': 'u2'}, {'fn': 'out_a', 'a': ['x1'], 'ret': 'u3'}, {'fn': 'out_a', 'a': ['x1'], 'ret': 'u4'},
+                   {'fn': 'out_hdl', 'a': ['x1'], 'ret': 'u5'}, {'fn': 'out_hdl', 'a': ['x1'], 'ret': 'u6'}],
     'iz+ia+oh': [{'fn': 'in_z', 'a': ['x1'], 'ret': 'u5'}, {'fn': 'in_a', 'a': ['x1'], 'ret': 'u1'}, {'fn': 'out_hdl', 'a': ['x1'], 'ret': 'u4'}],
     'iaK+oaK': [{'fn': 'in_a', 'a': ['x1'], 'exc': 'KeyError'}, {'fn': 'out_a', 'a': ['x1'], 'exc': 'KeyError'}],
     'ib+oa2+ih': [{'fn': 'in_b', 'a': ['x1'], 'ret': 'u2'}, {'fn': 'out_a', 'a': ['x1'], 'ret': 'u3'}, {'fn': 'out_a', 'a': ['x1'], 'ret': 'u4'},
@@ -44,9 +46,14 @@ PROBES = {
     'Z': {'fn': 'in_Z', 'a': ['x1']},
     # an output whose data handler fails while replaying: still answered from the recording, body not run
     'ohf': {'fn': 'out_hdl', 'a': ['x1'], 'fault': 'handler'},
+    'oh': {'fn': 'out_hdl', 'a': ['x1']},
+    'D': {'do': 'discard'},          # the replayed code reaches a discard (no-op while replaying)
+    'F': {'do': 'force'},
+    # run-original / callable substitute whose real answer is None
+    'Qnone': {'fn': 'in_Q', 'a': ['x1'], 'orig_ret': 'vn'},
 }
-SHAPES_Q = [('q',), ('Q',), ('o',), ('O',), ('q', 'q2'), ('o', 'o'), ('Q', 'o'), ('q', 'O'), ('b', 'Q'), ('Qn', 'o'), ('h', 'mut', 'h'), ('Z', 'q'), ('ohf', 'o')]
-SHAPES_T = SHAPES_Q + [('q', 'o', 'q2'), ('o', 'O', 'o'), ('Q', 'Q', 'q'), ('O', 'q', 'o'), ('q2', 'b', 'O')]
+SHAPES_Q = [('q',), ('Q',), ('o',), ('O',), ('q', 'q2'), ('o', 'o'), ('Q', 'o'), ('q', 'O'), ('b', 'Q'), ('Qn', 'o'), ('h', 'mut', 'h'), ('Z', 'q'), ('ohf', 'o'), ('o', 'D', 'o'), ('o', 'F', 'D', 'o', 'q'), ('Qnone', 'o')]
+SHAPES_T = SHAPES_Q + [('ohf', 'oh', 'oh'), ('oh', 'ohf', 'oh'), ('q', 'o', 'q2'), ('o', 'O', 'o'), ('Q', 'Q', 'q'), ('O', 'q', 'o'), ('q2', 'b', 'O')]
 
 
 def bounds(tier):
@@ -80,7 +87,7 @@ def gen_cases(tier, seed):
     shapes = SHAPES_Q if tier == 'quick' else SHAPES_T
     for rec in RECORDED:
         for shape in shapes:
-            has_in = any(l in ('q', 'q2', 'Q', 'Qn', 'Z') for l in shape)
+            has_in = any(l in ('q', 'q2', 'Q', 'Qn', 'Z', 'Qnone') for l in shape)
             has_out = any(l in ('o', 'O') for l in shape)
             incfgs = list(itertools.product(FALLBACKS, (False, True), MISSING)) if has_in else [('none', False, 'unset')]
             outcfgs = OUTCFG if has_out else [(True, None)]
@@ -154,8 +161,9 @@ def _run(case, box):
         if got != E['obs']:
             # blame the first differing call
             i = next((i for i, (a, b) in enumerate(zip(got, E['obs'])) if a != b), min(len(got), len(E['obs'])))
-            letter = case['shape'][i] if i < len(case['shape']) else '?'
-            kind = 'in' if letter in ('q', 'q2', 'Q', 'b', 'Qn', 'Qx', 'h', 'Z') else 'out'
+            calls_only = [l for l in case['shape'] if l not in ('D', 'F', 'mut')]
+            letter = calls_only[i] if i < len(calls_only) else '?'
+            kind = 'in' if letter in ('q', 'q2', 'Q', 'b', 'Qn', 'Qx', 'h', 'Z', 'Qnone') else 'out'
             exp_i = E['obs'][i] if i < len(E['obs']) else None
             got_i = got[i] if i < len(got) else None
             sig = 'policy:%s:expected=%s:got=%s' % (kind, _cls(exp_i), _cls(got_i))
